@@ -6,6 +6,7 @@ import ast
 from ..core import AnalysisError, norm
 from .. import symx, spec, aud
 from ..symx import Tx, E, S, fmt_cond
+from ..canon import inline_aliases
 from ..astutil import walk_local, stores, parent, ancestors
 from ..cfg import paths
 
@@ -203,7 +204,7 @@ def run(chk):
     chk.ob("C20.R5", f"{VIS}:parseAssertions", "irv-elimination->(winner,set(eliminated),proved)", ok_irv,
            "an IRV_ELIMINATION assertion becomes (winner, set(already_eliminated), proved)", node=pa, strength="N")
     # the driver builds S = all candidates except the alternative winner
-    bp = chk.fn(VIS, "buildPrintedResults")
+    bp = inline_aliases(chk.fn(VIS, "buildPrintedResults"))
     calls = [x for x in ast.walk(bp) if isinstance(x, ast.Call) and norm(x.func) == fn.name]
     ok = len(calls) == 1 and [norm(a) for a in calls[0].args][2:] == [a.arg for a in bp.args.args][2:4]
     # the set handed over for an alternative winner is built afresh for it: all candidates minus that winner
